@@ -14,7 +14,9 @@
 From Coq Require Import List Bool Arith.
 Import ListNotations.
 Require Import PV.Overload.Resolve.
-Require Import PV.Proofs.OverloadResolve PV.Proofs.OverloadUnion PV.Proofs.OverloadSound.
+Require Import PV.Proofs.OverloadResolve PV.Proofs.OverloadUnion PV.Proofs.OverloadSound PV.Proofs.OverloadPins.
+Require Import PV.Gen.OverloadGen.
+Require Import PV.Overload.Concrete PV.Proofs.OverloadConcrete.
 
 (* Union-free calls (Any allowed): the parameter-wise loop is the docstring's
    resolver: the first clean match wins, matches due to Any keep looking. *)
@@ -117,3 +119,49 @@ Theorem C08_accepted_is_sound : forall sigs args,
   forall t, Forall2 (fun m a => In m a) t args -> exists s, In s sigs /\ accepts s t <> Fail.
 Proof. exact resolve_sound. Qed.
 Print Assumptions C08_accepted_is_sound.
+
+(* Tie to the source, re-checked on every run.  [gen_unite_rets] is regenerated
+   from OverloadedSignature._unite_rets by harness/translate/overload.py and is
+   the model's unite_rets; the other regions the model mirrors are pinned in
+   Proofs/OverloadPins.v (pin_check_call_ok, pin_param_loop_ok, ...), which this
+   file depends on, so an edit of any of them breaks the build of this file. *)
+Theorem C08_unite_rets_is_translated : forall anys uanys unions clean,
+  gen_unite_rets anys uanys unions clean = unite_rets anys uanys unions clean.
+Proof. exact gen_unite_rets_is_model. Qed.
+Print Assumptions C08_unite_rets_is_translated.
+
+(* Concrete fragment, no abstract binding inputs: [os_binds], [bp_arg], [bp_dec]
+   are computed by the C05 binder model (Binder.Bind.bind = bind_arguments) from
+   concrete signatures and the call shape ([osig_of]); only the per-parameter
+   type check [co_acc] stays a parameter.  The guard is a boolean that can be
+   evaluated for any concrete overload set and call (the harness does, and it
+   cross-checks resolve_concrete against the real checker). *)
+Theorem C08_concrete_one_union : forall cs a t p R,
+  p < length t -> R <> [] ->
+  forallb (sig_guard_b p) (map (osig_of a) cs) = true ->
+  resolve_concrete cs a (upd p R (singletons t)) =
+  ref_union (filter os_binds (map (osig_of a) cs)) t p R [] [] [].
+Proof. exact concrete_one_union. Qed.
+Print Assumptions C08_concrete_one_union.
+
+Theorem C08_concrete_one_union_distributes : forall cs a t p R,
+  p < length t -> R <> [] ->
+  forallb (sig_guard_b p) (map (osig_of a) cs) = true ->
+  (forall s m, In s (map (osig_of a) cs) -> In m R -> accepts s (upd p m t) <> ViaAny) ->
+  (resolve_concrete cs a (upd p R (singletons t)) <> RErr <->
+     forall m, In m R -> exists s, In s (map (osig_of a) cs) /\ accepts s (upd p m t) = Clean) /\
+  (forall rs, resolve_concrete cs a (upd p R (singletons t)) = RTypes rs ->
+     (forall m, In m R -> exists r, resolve_concrete cs a (singletons (upd p m t)) = RTypes [r] /\ In r rs) /\
+     (forall r, In r rs -> exists m, In m R /\ resolve_concrete cs a (singletons (upd p m t)) = RTypes [r])).
+Proof. exact concrete_one_union_distributes. Qed.
+Print Assumptions C08_concrete_one_union_distributes.
+
+Example C08_concrete_example :
+  forallb (sig_guard_b 0) (map (osig_of call1) [ex_c1; ex_c2]) = true /\
+  resolve_concrete [ex_c1; ex_c2] call1 [[0; 1]] = RTypes [0; 1] /\
+  resolve_concrete [ex_c1; ex_c2] call2 [[0; 1]; [5]] = RTypes [0; 1] /\
+  resolve_concrete [ex_c1; ex_c2] callkw [[0; 1]] = RTypes [0; 1] /\
+  resolve_concrete [ex_c1; ex_c2] call3 [[0; 1]; [5]; [5]] = RErr /\
+  forallb (sig_guard_b 1) (map (osig_of call2) [ex_c1; ex_c2]) = false.
+Proof. exact concrete_example. Qed.
+Print Assumptions C08_concrete_example.
